@@ -4,7 +4,7 @@ CONSTANTS MaxPre = 2 MaxN = 4
   Accs <- AccsQuick
   Posts <- PostsQuick
   FlowKinds = {"bare", "ctx"}
-  Drivers = {"run", "fill", "split"}
+  Drivers = {"run", "fill", "persist", "split"}
   Places = {"alone", "afterstop"}
   StopFlag = "per_branch"
   CopyMode = "per_branch"
